@@ -8,6 +8,7 @@ Contents
 * HistoryLearner           - stateful learner: every prediction and every recorded field depends on its *full*
                              learn history; answers in one of the documented prediction formats
                              ('a' action only, 'ap' (action,prob), 'pmf', 'ap_kw' / 'pmf_kw' with kwargs)
+* FinishingHistoryLearner  - the same with an observable finish() hook (releases its model, refuses later use)
 * FaultyLearner            - wrapper: raises at params / at the j-th predict / at the j-th learn
 * FaultyRead, FaultyParams - environment filters: raise at the j-th interaction of read / when params is built
 * eval_fn_rows, eval_fn_summary - custom *function* evaluators
@@ -131,6 +132,41 @@ class HistoryLearner(Learner):
 
     def state(self):
         return (self.h, self.n_pred, self.n_learn, list(self.mem["trace"]))
+
+class FinishingHistoryLearner(HistoryLearner):
+    """HistoryLearner with the optional `finish()` hook: like a learner owning an external resource it releases its model when
+    finished and refuses any later use. coba may call finish() on the per-evaluation copies it made itself; the listed object
+    must stay as constructed (state_of sees `finished` and the released model)."""
+    def __init__(self, *args, **kwargs):
+        super().__init__(*args, **kwargs)
+        self.finished = 0
+
+    @property
+    def params(self):
+        return dict(super().params, finish=True)
+
+    def _alive(self):
+        if self.finished:
+            raise RuntimeError(f"HistoryLearner {self.tag} was used after finish()")
+
+    def score(self, context, actions, action):
+        if actions is not None: self._alive()       # has_score() probes with (None, None, None)
+        return super().score(context, actions, action)
+
+    def predict(self, context, actions):
+        self._alive()
+        return super().predict(context, actions)
+
+    def learn(self, context, action, reward, probability, **kwargs):
+        self._alive()
+        return super().learn(context, action, reward, probability, **kwargs)
+
+    def finish(self):
+        self.finished += 1
+        self.mem = None
+
+    def state(self):
+        return (self.h, self.n_pred, self.n_learn, None if self.mem is None else list(self.mem["trace"]), self.finished)
 
 class FaultyLearner(Learner):
     """Delegates to `inner`; raises InjectedFault(msg) at `where` in {'params','predict','learn'} on call number `at` (0-based)."""
